@@ -281,7 +281,6 @@ type botRun struct {
 	replay  int             // replayed moves still to come
 	undoReq bool            // the bot answered RequestUndo and the server has not sent Undo yet
 	used    map[byte]int    // quota counters per event class
-	tseen   int             // timers known to have been tried
 	times   int
 	variant string
 }
@@ -335,7 +334,7 @@ func (r *botRun) sync() {
 func (r *botRun) start(id int) {
 	jemit(r.c, fmt.Sprintf("case %d", id))
 	r.srv = []*tak.Position{tak.New(tak.Config{Size: r.scn.size})}
-	r.seen, r.undoReq, r.tseen, r.times = 0, false, 0, 0
+	r.seen, r.undoReq, r.times = 0, false, 0
 	r.replay = r.scn.replay
 	r.used = map[byte]int{}
 	line := fmt.Sprintf("botnew %s %d 600 %d", r.scn.colour, r.scn.size, r.scn.gameNo)
@@ -439,7 +438,7 @@ func (r *botRun) options() []botOpt {
 	})
 	b.mu.Lock()
 	c := b.cur
-	nt := len(b.timers)
+	nt := len(b.pending)
 	b.mu.Unlock()
 	if c != nil {
 		tag := func() {
@@ -466,8 +465,18 @@ func (r *botRun) options() []botOpt {
 	} else if over, _ := b.game.VerifP().GameOver(); over && !b.over() {
 		r.c.Count("state:decided-position-idle-thinker")
 	}
-	if nt > r.tseen {
-		add('t', func() { r.tseen = nt; r.emit("ev timer") })
+	// t: the clock - the OLDEST armed timer expires.  After several server moves inside one invocation (a resume
+	// replay) the first expiries are those of overwritten timers: the grace period runs from the LAST move.
+	if nt > 0 {
+		add('t', func() {
+			if nt > 1 {
+				r.c.Count("timer:expiry-with-a-newer-timer-armed")
+			}
+			out := r.emit("ev timer")
+			if i := strings.LastIndex(out, " r="); i >= 0 {
+				r.c.Count("timer:" + out[i+3:])
+			}
+		})
 	}
 	if len(r.srv) > 1 {
 		add('u', func() { r.deliver(r.gs()+" RequestUndo", "a=1") })
@@ -536,9 +545,10 @@ func (r *botRun) prefix(k int) {
 		r.times++
 		r.deliver(fmt.Sprintf("%s Time %d %d", r.gs(), 600-7*r.times, 590-3*r.times), "")
 	}
-	r.b.mu.Lock()
-	r.tseen = len(r.b.timers)
-	r.b.mu.Unlock()
+	// the prefix was played long ago: the grace timers of its moves (all abandoned when the clock line came) have expired
+	if r.b.armed() > 0 {
+		r.emit("ev drain")
+	}
 }
 
 // ---- exhaustive enumeration of one scenario (odometer over option indices; one run per leaf)
